@@ -162,7 +162,12 @@ def spec_call(E, name, node, st, fr):
         v = E.ev(A[0], st, fr)
         if fr.old is None:
             raise CheckerError("fresh() outside a postcondition")
-        return V(BOOL, z3.And(v.z != ty.null, z3.Not(z3.Select(E.alloc(fr.old), v.z)), z3.Select(E.alloc(st), v.z)))
+        # allocation only grows, so an object that is fresh w.r.t. any later state was not allocated at function entry either;
+        # stating it keeps the fact usable after the intermediate heap version has been pruned at a loop head
+        if ("alloc",) not in E.heap0:
+            E.heap0[("alloc",)] = z3.Const("H0_alloc", E.key_sort(("alloc",)))
+        return V(BOOL, z3.And(v.z != ty.null, z3.Not(z3.Select(E.alloc(fr.old), v.z)), z3.Select(E.alloc(st), v.z),
+                              z3.Not(z3.Select(E.heap0[("alloc",)], v.z))))
     if name == "allocated":
         v = E.ev(A[0], st, fr)
         return V(BOOL, z3.Select(E.alloc(st), v.z))
@@ -555,7 +560,11 @@ def construct(E, cname, args, kwargs, st, fr, node):
     obj = E.new_ref(st, ty.Ref(cname), cname.lower())
     q = E.prog.method(cname, "__init__")
     if q is not None:
-        E.call_function(q, [obj] + args, kwargs, st, fr, node, is_init=True)
+        E.under_construction.append(obj.z)
+        try:
+            E.call_function(q, [obj] + args, kwargs, st, fr, node, is_init=True)
+        finally:
+            E.under_construction.pop()
     else:
         # NamedTuple / dataclass style: fields from class annotations, in order
         _m, cn = E.prog.classes[cname]
@@ -1002,6 +1011,9 @@ def module_call(E, mod, fn, args, kwargs, st, fr, node):
             return V(REAL, f(s, E.coerce(args[1], REAL).z) if fn == "percentile" else f(s))
     if mod == "time":
         return V(REAL, fresh("time", z3.RealSort()))
+    if mod == "uuid" and fn == "uuid4":
+        E.assumptions.add("A-UUID: uuid.uuid4() returns an identifier different from every existing one (modelled as a fresh object)")
+        return E.new_ref(st, ty.Ref("UUID"), "uuid")
     raise CheckerError(f"{fr.qname}: external call {mod}.{fn} not modelled (line {node.lineno})")
 
 
